@@ -50,6 +50,21 @@ package lexer
 //@ pred at2(l *Lexer, c int, d int) = byteAt(l.input, l.pos) == c && byteAt(l.input, l.pos+1) == d
 //@ pred commentAt(s string, p int) = byteAt(s, p) == '{' && byteAt(s, p+1) == '{' && byteAt(s, p+2) == '-' && byteAt(s, p+3) == '-'
 
+// a directive keyword of the table token.directives begins at byte p
+//@ pred matchAt(s string, p int, d string) = p+len(d) <= len(s) && s[p:p+len(d)] == d
+// (opaque: the definition is revealed only where "use dirKeyDef" says so)
+//@ spec dirKeyAt(s string, p int) bool
+//@ axiom dirKeyDef(s string, p int): dirKeyAt(s, p) == anykey(token.directives, d, matchAt(s, p, d))
+//@ pred bracesAt(s string, p int) = byteAt(s, p) == '{' && byteAt(s, p+1) == '{'
+// Textwire syntax begins at p: '{{' or '@' + directive keyword
+//@ pred codeAt(s string, p int) = bracesAt(s, p) || dirKeyAt(s, p)
+// ... and it is not escaped by a backslash
+//@ spec stopAt(s string, p int) bool
+//@ axiom stopDef(s string, p int): stopAt(s, p) == (codeAt(s, p) && byteAt(s, p-1) != '\\')
+// ... or it is escaped: the backslash before it is dropped and the text stays text
+//@ spec escAt(s string, p int) bool
+//@ axiom escDef(s string, p int): escAt(s, p) == (codeAt(s, p) && byteAt(s, p-1) == '\\')
+
 //@ pred Advance(l *Lexer, p0 int, t token.Token, n int) = LexInv(l) && l.pos == p0+n && l.startPos == p0 && TokSpan(l, t)
 
 //@ modset POS = l.pos, l.readPos, l.char, l.col, l.prevCol, l.line, l.prevLine, l.shouldResetCol
@@ -89,8 +104,8 @@ package lexer
 
 //@ func (l *Lexer) illegalToken
 //@   requires LexInv(l)
-//@   ensures Advance(l, old(l.pos), result, 0) && result.Type == token.ILLEGAL
-//@   modifies @START
+//@   ensures Advance(l, old(l.pos), result, 1) && result.Type == token.ILLEGAL
+//@   modifies @POS, @START
 
 //@ func (l *Lexer) incrementToken
 //@   requires LexInv(l) && at2(l, '+', '+')
@@ -190,15 +205,14 @@ package lexer
 
 //@ func (l *Lexer) directiveToken
 //@   requires LexInv(l)
-//@   ensures LexInv(l) && l.pos >= old(l.pos) && l.startPos >= old(l.pos) && TokSpan(l, result)
-//@   ensures live(result.Type) ==> l.pos > old(l.pos) && l.startPos == old(l.pos)
+//@   ensures LexInv(l) && l.pos > old(l.pos) && l.startPos >= old(l.pos) && l.startPos < l.pos && TokSpan(l, result)
+//@   ensures live(result.Type) ==> l.startPos == old(l.pos)
 //@   ensures result.Type == token.ILLEGAL || isDirectiveType(result.Type)
 //@   modifies @POS, @START, l.isDirective, l.isHTML
 
 //@ func (l *Lexer) embeddedCodeToken
 //@   requires LexInv(l) && l.char != 0
-//@   ensures LexInv(l) && l.pos >= old(l.pos) && l.startPos == old(l.pos) && TokSpan(l, result)
-//@   ensures live(result.Type) ==> l.pos > old(l.pos)
+//@   ensures LexInv(l) && l.pos > old(l.pos) && l.startPos == old(l.pos) && TokSpan(l, result)
 //@   ensures result.Type != token.EOF
 //@   ensures isFixedSpelling(result.Type) || result.Type == token.IDENT || result.Type == token.INT || result.Type == token.FLOAT
 //@        ==> textIs(result.Literal, l.input, old(l.pos), l.pos)
@@ -222,29 +236,45 @@ package lexer
 
 //@ func (l *Lexer) isDirectiveToken
 //@   requires LexInv(l)
-//@   ensures result0 ==> l.char == '@'
+//@   use dirKeyDef(l.input, l.pos)
+//@   ensures result0 == (dirKeyAt(l.input, l.pos) && byteAt(l.input, l.pos-1) != '\\')
+//@   ensures result1 == (dirKeyAt(l.input, l.pos) && byteAt(l.input, l.pos-1) == '\\')
 //@   modifies nothing
-//@   loop 0: invariant pos == l.pos && i >= 1
+//@   loop 0: invariant pos == l.pos && i >= 1 && l.char == '@'
+//@   loop 0: invariant allkeys(token.directives, d, len(d) < i ==> !matchAt(l.input, pos, d))
+//@   loop 0: invariant allkeys(token.directives, d, len(d) <= longestDir)
 //@   loop 0: decreases longestDir + 1 - i
 
 //@ func (l *Lexer) readHTML
-//@   requires LexInv(l)
-//@   ensures LexInv(l) && l.pos >= old(l.pos) && l.startPos == old(l.pos)
+//@   requires LexInv(l) && l.isHTML && l.char != 0 && !bracesAt(l.input, l.pos)
+//@   requires !(dirKeyAt(l.input, l.pos) && byteAt(l.input, l.pos-1) != '\\')
+//@   ensures LexInv(l) && l.pos > old(l.pos) && l.startPos == old(l.pos)
+//@   goal stops-right: l.char == 0 || stopAt(l.input, l.pos)
+//@   goal no-earlier: forall(i, old(l.pos)+1, l.pos, !stopAt(l.input, i))
+//@   goal passthrough: forall(i, old(l.pos), l.pos, !escAt(l.input, i)) ==> textIs(result, l.input, old(l.pos), l.pos)
 //@   modifies @POS, @START
-//@   loop 0: invariant LexInv(l) && l.startPos == old(l.pos) && l.pos >= old(l.pos)
+//@   loop 0: invariant LexInv(l) && l.startPos == old(l.pos) && l.pos >= old(l.pos) && l.isHTML
+//@   loop 0: invariant l.pos == old(l.pos) ==> l.char == old(l.char)
+//@   loop 0: invariant forall(i, old(l.pos)+1, l.pos, !stopAt(l.input, i))
+//@   loop 0: invariant forall(i, old(l.pos), l.pos, !escAt(l.input, i)) ==> textIs(out.String(), l.input, old(l.pos), l.pos)
+//@   loop 0: use stopDef(l.input, l.pos)
+//@   loop 0: use escDef(l.input, l.pos)
 //@   loop 0: decreases len(l.input) - l.pos
 
 //@ func (l *Lexer) NextToken
 //@   requires LexInv(l)
 //@   ensures LexInv(l) && TokSpan(l, result)
 //@   ensures old(l.pos) <= l.startPos && l.startPos <= l.pos
-//@   ensures live(result.Type) ==> l.pos > old(l.pos)
-//@   goal ordered: result.Type != token.EOF ==> l.startPos <= l.pos-1
+//@   ensures ordered: result.Type != token.EOF ==> l.pos > old(l.pos) && l.startPos <= l.pos-1
+//@   goal text-mode-html: old(l.isHTML) && old(l.char) != 0 && !bracesAt(l.input, old(l.pos))
+//@        && !(dirKeyAt(l.input, old(l.pos)) && byteAt(l.input, old(l.pos)-1) != '\\') ==> result.Type == token.HTML
+//@   goal text-mode-code: old(l.isHTML) && result.Type != token.HTML && result.Type != token.EOF
+//@        ==> bracesAt(l.input, old(l.pos)) || dirKeyAt(l.input, old(l.pos))
 //@   goal eof: result.Type == token.EOF ==> l.pos == len(l.input) && l.startPos == l.pos
 //@   goal gap-code: old(!l.isHTML) ==> forall(i, old(l.pos), l.startPos, isSpaceC(byteAt(l.input, i)))
 //@        || exists(j, old(l.pos), l.startPos, commentAt(l.input, j))
 //@   goal gap-text: old(l.isHTML) && live(result.Type) ==> l.startPos == old(l.pos) || commentAt(l.input, old(l.pos))
-//@   goal text: isFixedSpelling(result.Type) || result.Type == token.IDENT || result.Type == token.INT || result.Type == token.FLOAT
+//@   ensures text: isFixedSpelling(result.Type) || result.Type == token.IDENT || result.Type == token.INT || result.Type == token.FLOAT
 //@        ==> textIs(result.Literal, l.input, l.startPos, l.pos)
 //@   decreases len(l.input) - l.pos
 //@   modifies @POS, @START, l.countCurlyBraces, l.countDirectiveParentheses, l.isDirective, l.isHTML
@@ -254,6 +284,9 @@ package lexer
 //@ func (l *Lexer) prevChar
 //@   inline
 //@ func (l *Lexer) areBracesToken
-//@   inline
+//@   requires LexInv(l) && l.pos <= len(l.input)
+//@   ensures result0 == (bracesAt(l.input, l.pos) && byteAt(l.input, l.pos-1) != '\\')
+//@   ensures result1 == (bracesAt(l.input, l.pos) && byteAt(l.input, l.pos-1) == '\\')
+//@   modifies nothing
 //@ func (l *Lexer) isPotentiallyLong
 //@   inline
